@@ -427,6 +427,8 @@ impl<'a> Body for CoherenceBody<'a> {
 
 pub struct SplitBody<'a> {
     pub b: &'a Built,
+    /// the same pattern built with a tiny backtrack limit (a search error in mid-iteration)
+    pub limited: Option<&'a Built>,
 }
 
 fn collect_pieces<'h, I: Iterator<Item = crate::Result<&'h str>>>(target: &'h str, it: I, cap: usize) -> (Vec<It>, bool) {
@@ -544,6 +546,42 @@ impl<'a> Body for SplitBody<'a> {
                     canon_seq(&x.0),
                     canon_seq(&exp),
                 ));
+                return o;
+            }
+        }
+        // a search error in mid-iteration: the pieces around the matches found so far, the
+        // error, and the rest of the text as the last piece (one more piece than matches,
+        // pieces and matches still rebuild the input)
+        if let Some(lb) = self.limited {
+            let (lfi, lsp) = with_text(lb, t, |s| {
+                let (fi, _) = real_find_iter(&lb.regex, s);
+                let sp = collect_pieces(s, lb.regex.split(s), s.len() + 6);
+                (fi, sp)
+            });
+            o.items.push(std::format!("limited find_iter={} split={}", canon_seq(&lfi), canon_seq(&lsp.0)));
+            let mut exp: Vec<It> = Vec::new();
+            let mut prev = 0usize;
+            for m in &lfi {
+                match m {
+                    It::M(s, e) => {
+                        exp.push(It::M(prev, *s));
+                        prev = *e;
+                    }
+                    It::E(e) => exp.push(It::E(e.clone())),
+                }
+            }
+            exp.push(It::M(prev, len));
+            if !lsp.1 || lsp.0 != exp {
+                o.fail = Some(Fail {
+                    what: std::format!("with backtrack limit {}: split does not yield the pieces around the matches found, the error, and the rest of the text", lb.opts.0.backtrack_limit),
+                    op: "split".to_string(),
+                    pattern: lb.src.clone(),
+                    casei: false,
+                    limit: Some(lb.opts.0.backtrack_limit),
+                    arg: 0,
+                    observed: canon_seq(&lsp.0),
+                    expected: canon_seq(&exp),
+                });
                 return o;
             }
         }
@@ -993,7 +1031,8 @@ pub fn process_wrappers(cfg: &RunCfg, item: &Item, rep: &mut PatReport) {
             drive(&cfg.prop, &body, &classes, cfg.n, cfg, rep);
         }
         "C10" => {
-            let body = SplitBody { b: &b };
+            let limited = if b.fancy { symx_api::build(&item.pattern, false, Some(1 + (item.pattern.len() % 3))).ok() } else { None };
+            let body = SplitBody { b: &b, limited: limited.as_ref() };
             drive(&cfg.prop, &body, &classes, cfg.n, cfg, rep);
         }
         "C11" => {
@@ -1090,6 +1129,13 @@ pub fn work_list(cfg: &RunCfg) -> Option<WorkList> {
     .iter()
     {
         fixed.push(Item::new(w, "witness"));
+    }
+    if cfg.prop == "C09" {
+        // `\G` inside a look-behind: position-sensitive whatever the entry point; coherence
+        // between the entry points needs no reference semantics (seed S8-C09)
+        for w in ["a(?<=\\Ga)", "a(?<!\\Ga)", "ab(?<=\\Gab)c", "(?<=\\G.)a", "b(?<=\\Gb)|a", "a(?<=\\G.)\\K", "é(?<=\\Gé)"].iter() {
+            fixed.push(Item::new(w, "witness"));
+        }
     }
     let ex = corpus::exhaustive(&ATOMS_SMALL, &OPS_QUICK, if thorough { 4 } else { 3 });
     for p in ex {
